@@ -7,7 +7,7 @@ CONSTANTS
   FileSeq <- Seq3
   MaxStmts = 4
   GenKinds = {"use", "forward"}
-  GenSpellings = {"plain", "dot"}
+  GenSpellings = {"plain", "dot", "ext"}
   DevChoices <- DevIdeal
   MaxFaultAt = 0
 INVARIANTS UrlsResolve LockDiscipline DepthBound LoopOnlyOnCycle NeverOverflow InitOnce OkOnlyAcyclic Emit
